@@ -46,6 +46,7 @@ RULE = (
     "so instances compete; helpers: matrices with >= 2 rows and >= 2 columns, non-identical box / vector pairs"
 )
 ASSUMPTIONS = [
+    "alias family: compute_oks called with the same array object in both roles and with two arrays whose roles are swapped between consecutive calls (identity clause on shared objects, arguments unchanged)",
     "history part: all ordered pairs (thorough: triples) of 30 compute_oks calls colliding in shapes with different stddev/scale options, each history in a forked child, compared with a fresh-process result",
     "coordinates come from the alphabet {NaN, 0, 1, 3, 10} (a node is either missing = NaN in both coordinates, or a grid point; "
     "half-NaN nodes are outside the alphabet), plus one very far predicted point (1e6, 1e6); 2-D points only",
@@ -1009,6 +1010,69 @@ def history_run(entry):
     return compute_oks(c["gt"].copy(), c["pr"].copy(), **opt)
 
 
+def alias_family(part):
+    """compute_oks with argument OBJECTS shared between roles and calls: OKS(p, p) on the very same array, and
+    oks(a, b) followed by oks(b, a) on the same two arrays.  Identity / symmetry-of-use clauses of the property,
+    plus: the caller's arrays are not modified."""
+    import itertools
+
+    import numpy as np
+
+    from sleap_nn.evaluation import compute_oks
+
+    alpha = [float("nan"), 0.0, 3.0, 10.0]
+    poses = []
+    for c in itertools.product(alpha, repeat=4):
+        p_ = np.array(c, dtype=np.float64).reshape(2, 2)
+        vis = ~np.isnan(p_).any(axis=1)
+        if vis.any():
+            poses.append(p_)
+    for dt in (np.float64, np.float32):
+        for p_ in poses:
+            a = p_.astype(dt)
+            snap = a.tobytes()
+            case = {"kind": "alias", "mode": "same-object", "pose": a.tolist(), "dtype": np.dtype(dt).name}
+            part.count()
+            part.transition()
+            key = "alias1:" + repr(case)
+            part.state(key)
+            if np.isnan(a).any():
+                part.nontriv(key)
+            try:
+                v = float(np.asarray(compute_oks(a, a)).reshape(-1)[0])
+            except Exception as e:
+                part.violation(case, f"compute_oks(p, p) raised {type(e).__name__}: {e}")
+                continue
+            part.outcome(f"alias1:{v:.6f}")
+            if not abs(v - 1.0) <= 1e-9:
+                part.violation(case, f"OKS of a pose with itself (the same array object as ground truth and prediction) = {v}, expected 1")
+            elif a.tobytes() != snap:
+                part.violation(case, f"compute_oks modified its argument: {a.tolist()}")
+    small = [p_ for p_ in poses if set(np.nan_to_num(p_, nan=-1).reshape(-1)) <= {-1.0, 0.0, 3.0}][:40]
+    for a0 in small:
+        for b0 in small:
+            a, b = a0.copy(), b0.copy()
+            e2 = compute_oks(b0.copy(), a0.copy())
+            case = {"kind": "alias", "mode": "swap", "a": a0.tolist(), "b": b0.tolist()}
+            part.count()
+            part.transition(2)
+            key = "alias2:" + repr(case)
+            part.state(key)
+            if np.isnan(a0).any() or np.isnan(b0).any():
+                part.nontriv(key)
+            try:
+                compute_oks(a, b)
+                g2 = compute_oks(b, a)
+            except Exception as e:
+                part.violation(case, f"compute_oks raised {type(e).__name__}: {e}")
+                continue
+            part.outcome("alias2:" + repr(np.round(g2, 6).tolist()))
+            if not np.allclose(g2, e2, atol=1e-12, equal_nan=True):
+                part.violation(case, f"oks(b, a) = {g2.tolist()} after oks(a, b) on the same arrays, but {e2.tolist()} on fresh copies (the first call changed its arguments)")
+            elif a.tobytes() != a0.tobytes() or b.tobytes() != b0.tobytes():
+                part.violation(case, "compute_oks modified the caller's arrays")
+
+
 def run(ctx):
     core.setup_torch()
     from mc import history as _history
@@ -1113,9 +1177,15 @@ def run(ctx):
     finally:
         _ENV.pop("env", None)
         shutil.rmtree(env["dir"], ignore_errors=True)
+    alias_family(ctx)
 
 
 def replay(case):
+    if isinstance(case, dict) and case.get("kind") == "alias":
+        part = core.Part()
+        alias_family(part)
+        hits = [m for c, m in part.viol if c.get("mode") == case.get("mode")]
+        return {"violates": bool(hits), "messages": hits[:2]}
     if isinstance(case, dict) and case.get("kind") == "history":
         from mc import history as _history
 
